@@ -293,10 +293,10 @@ EXTRA_TEXT = {
     "C15": " Also: free-slot search sees the slot vacant (C15.slot); datagram receive loop waits against a per-attempt deadline (C15.dgdl); settable / applied timeout fields agree (C15.cfg); synthesized replies set QR (C15.synth); the stream timer restarts only for a matched message (C15.timer); check_stream compares the question (or sees it empty) in every state (typestate, C15.xfr); accepting a request never raises the timeout pending requests run under (C15.raise). Also (round 11): a new request does not restart a running response timer (C15.timer); synthesized replies carry the request's ID (C15.synth); the datagram transmission loop runs exactly max_retries + 1 times (linear form of the range, C15.budget). Also (round 13): the first message of a transfer has a question or is an error (path-sensitive, C15.xfr). Also (round 14): the datagram buffer is resized before every recv (C15.dgdl); replies already read are delivered before the reader's end is reported (C15.ans).",
     "C17": " Also: the XFR interpreter's serial regression test is RFC 1982 '<' (C17.ixfr); Timestamp::scan reduces modulo 2^32 (C17.wrap). Also (round 11): no saturating / checked / plain addition on the raw value of a serial, new codec included (C17.use); the new codec's copy of to_system_time has the decision table of the established one (C17.port). Also (round 14): the new codec's Serial::inc wraps (C17.add).",
     "C01": " Also: unreachable!() behind a repeated match is unreachable (path-sensitive, C01.rematch); lossy-UTF-8 loops end on error_len() == None (C01.lossy); Clone impls of the message iterators copy every field (C01.clone). Shared with other checks: ParsedName's compressed flag (C03.flag) and the alphabet-index bound of the base16/32/64 encoders used by Display (C18.enc). Also (round 10): bitmap window lengths accepted are exactly 3..=34 (C01.window); caps computed in an inlined helper are recognised (accumulator_of). Also (round 12): MessageIter ends after a failed section change (C01.fuse); compression pointers are built with exactly 14 possible bits (C01.ptrmask); len() - k behind len >= k (C01.lensub). Also (round 15): a loop that discards a section step leaves on count = Err (C01.handloop); DigPrinter reaches no further section step after an unparsable item (C01.printer); SVCB list parameters are a multiple of their iterator's item size (C01.hintelem).",
-    "C02": " Also: label sequences are compared with a length-aware equality (C02.seqeq); the parser's compressed flag (C03.flag). Also: each backward section conversion reaches rewind() of every later section and each rewind zeroes its own count (C02.rewind); header fields written in place by a builder inside a push closure are restored when the push fails (C02.hdr); skip and parse accept the same names (C01.skip). Thorough tier additionally builds compile-fail witnesses for the section typestates. Also (round 13): the section trait's push is the builder's own (C02.secfwd); the OPT option iterator continues while any octet remains (C02.optiter).",
-    "C03": " Also: no subtraction in the builder can wrap, a started label has content, labels are appended atomically (C03.bld); in-place truncation only at label boundaries (C03.cut); both escape readers accept exactly the printable non-digits (C06.sym). Also: validated name types are built directly (struct literal) only inside an unsafe fn, from a validated value or behind a validator, and every *_unchecked constructor is an unsafe fn (C03.raw); the zone-file reader never continues past an empty label (C06.empty). Thorough tier additionally builds compile-fail witnesses (unsafe constructors, no mutable access to a name's octets). Also (round 10): the validator relied on before an unchecked wrap bounds the length (C03.forge). Also (round 13): one append per new label (C03.bld); finish / into_name / append_origin end the open label (C03.endl); a root label anywhere in a relative name is refused (C03.bounds).",
-    "C07": " Also: no overlong UTF-8 (C07.utf8); token-ending characters == categoriser's special octets (C07.wordset); `@` in record data (C07.at); a line feed inside a group is white space; every stated class is remembered (C07.inherit); converter finished once (C18.split) and guarded after end-of-data (C18.state). Also: every token consumer checks require_token (C07.token); next_item is only reached with the token read to its end (typestate, C07.drain); the cursor never moves past a symbol found not to be a word character (C07.delim); running length check in scan_name rejects from 255 (C07.len); the closing quote is not part of a value (C07.quote); no unchecked narrow arithmetic in scan functions (C07.ovf); the fast path passes only octets the slow path accepts (C07.fast). Also (round 13): the item reader advances one octet at a time (C07.step); convert_label's no-copy guard is an equality (C07.nocopy).",
-    "C08": " Also: remove_all always removes RRsets, marker and children (C08.wipe); only unmarked / NXDOMAIN-marked nodes have their marker recomputed (C08.mark); a deletion keeps the RRset's TTL (C10.ttl). Also: NXDOMAIN-marked nodes are descended through on the way down (C08.below, corrected table); QTYPE ANY chooses among the RRsets present at the reader's version (C08.any); Answer::to_message writes SOA, NS and DS independently (C08.auth); NodeRrsets::is_empty is 'no RRset present at the version' (C08.nx). Also (round 13): an empty RRset removes the type (C08.emptyset); the in-zone test compares labels (C08.inzone); Versioned::get searches all entries, open() always marks dirty (C09.ver, C09.drop).",
+    "C02": " Also: label sequences are compared with a length-aware equality (C02.seqeq); the parser's compressed flag (C03.flag). Also: each backward section conversion reaches rewind() of every later section and each rewind zeroes its own count (C02.rewind); header fields written in place by a builder inside a push closure are restored when the push fails (C02.hdr); skip and parse accept the same names (C01.skip). Thorough tier additionally builds compile-fail witnesses for the section typestates. Also (round 13): the section trait's push is the builder's own (C02.secfwd); the OPT option iterator continues while any octet remains (C02.optiter). Also (round 16): both writers of a name-compressing record type emit the fields in one order (C02.brorder); OptRecord::as_record and ::from_record agree on every TTL bit (C02.optttl).",
+    "C03": " Also: no subtraction in the builder can wrap, a started label has content, labels are appended atomically (C03.bld); in-place truncation only at label boundaries (C03.cut); both escape readers accept exactly the printable non-digits (C06.sym). Also: validated name types are built directly (struct literal) only inside an unsafe fn, from a validated value or behind a validator, and every *_unchecked constructor is an unsafe fn (C03.raw); the zone-file reader never continues past an empty label (C06.empty). Thorough tier additionally builds compile-fail witnesses (unsafe constructors, no mutable access to a name's octets). Also (round 10): the validator relied on before an unchecked wrap bounds the length (C03.forge). Also (round 13): one append per new label (C03.bld); finish / into_name / append_origin end the open label (C03.endl); a root label anywhere in a relative name is refused (C03.bounds). Also (round 16): append_name's per-label loop is counted as name.compose_len() and its guard must imply len + C <= 254 (C03.bld).",
+    "C07": " Also: no overlong UTF-8 (C07.utf8); token-ending characters == categoriser's special octets (C07.wordset); `@` in record data (C07.at); a line feed inside a group is white space; every stated class is remembered (C07.inherit); converter finished once (C18.split) and guarded after end-of-data (C18.state). Also: every token consumer checks require_token (C07.token); next_item is only reached with the token read to its end (typestate, C07.drain); the cursor never moves past a symbol found not to be a word character (C07.delim); running length check in scan_name rejects from 255 (C07.len); the closing quote is not part of a value (C07.quote); no unchecked narrow arithmetic in scan functions (C07.ovf); the fast path passes only octets the slow path accepts (C07.fast). Also (round 13): the item reader advances one octet at a time (C07.step); convert_label's no-copy guard is an equality (C07.nocopy). Also (round 16): scan_string steps back over the closing quote only when the quoted token has ended (C07.stepback); line_start is recorded after start moved over the line feed (C07.linestart).",
+    "C08": " Also: remove_all always removes RRsets, marker and children (C08.wipe); only unmarked / NXDOMAIN-marked nodes have their marker recomputed (C08.mark); a deletion keeps the RRset's TTL (C10.ttl). Also: NXDOMAIN-marked nodes are descended through on the way down (C08.below, corrected table); QTYPE ANY chooses among the RRsets present at the reader's version (C08.any); Answer::to_message writes SOA, NS and DS independently (C08.auth); NodeRrsets::is_empty is 'no RRset present at the version' (C08.nx). Also (round 13): an empty RRset removes the type (C08.emptyset); the in-zone test compares labels (C08.inzone); Versioned::get searches all entries, open() always marks dirty (C09.ver, C09.drop). Also (round 16): every NS record of a zone cut has its glue collected (C08.glueall).",
     "C09": " Also: every write-locking node-storage function is told its version (C09.shared, one known finding: node existence); version provenance over WriteZone's methods too (C09.wr). Also: a WriteNode's version follows the writer's (C09.stale, one known finding); nothing touches the update-lock guard field after construction (C09.lock); container rollback/remove_all leave no element out (C09.rbk); C08.any. Thorough tier additionally builds a compile-fail witness (a reader cannot open the zone for writing). Also (round 13): Versioned::get compares the version inside a search over all entries (C09.ver); open() marks dirty unconditionally (C09.drop); a walk descends through every non-cut node (C10.walk).",
     "C11": " Also: Other Data is refused unless empty or a 6-octet time (C11.vars). Also: no unwrap of message-derived results in the TSIG module (C11.panic); CLASS/TTL of the TSIG record are checked because the digest feeds constants (C11.vars); Algorithm::from_name accepts exactly one label plus root, case-insensitively (C11.alg); the request MAC is fed into the context before any later use (C11.prime); Time48 wire layout (C11.time48). Also (round 13): other_time() depends on the length only (C11.other); `first` cleared only after MAC and time check succeeded (C11.first); first_answer replaces the context (C11.reset).",
     "C13": " Also: grouping iterators use the sort's notion of equal owners (C13.group); no iteration of the NSEC3 linking loop skips set_next_owner (C13.close). Also: every successful return of the generators has passed the step that closes / sorts-and-links the chain (C13.close); the empty-non-terminal walk has no early exit (C13.ent); the case folding of the name order (C04.fold). Also (round 13): NSEC3PARAM bit unconditional at the apex (C13.types); window / octet / bit of a type number by source-bit tracking (C13.split). Also (round 14): reading the remembered cut does not consume it (C13.cut).",
